@@ -160,6 +160,7 @@ LogInfo ==
       ideal |-> IF cls = "value" THEN (IF v.b THEN "T" ELSE "F") ELSE "",
       \* "result_bare_bool": the value of the whole expression is what == returned (numpy.bool_ / bool,
       \* not a BooleanType) - section 8 tracks the python type because the callers depend on it
+      devs |-> (IF pr.ok THEN CmpFeatures(pr.tree, 1).f ELSE {}) \cup (IF LTreeOK(mt) THEN mv.dev ELSE {}),
       tags |-> (IF pr.ok THEN CmpFeatures(pr.tree, 1).f ELSE {}) \cup (IF LTreeOK(mt) THEN mv.dev ELSE {})
                \cup (IF LTreeOK(mt) /\ ~mv.num /\ mv.r # "E" /\ mv.pt \in {"np", "py"} THEN {"result_bare_bool"} ELSE {})]
 LogRecord(i) ==
@@ -169,7 +170,8 @@ LogRecord(i) ==
                    \cup (IF UsesCustom(s) THEN {"custom_unit_operand"} ELSE {})]
 LogRefines(i) ==
   /\ (i.ok /\ ~DoubleNot(s)) => i.mt = i.it
-  /\ i.cls = "value" => (i.mout = i.ideal \/ i.mout = "U" \/ i.tags # {})
+  \* every difference in the truth value is explained by a named deviation of section 8
+  /\ i.cls = "value" => (i.mout = i.ideal \/ i.mout = "U" \/ i.devs # {})
 
 TmplRecord ==
   [mode |-> "tmpl", id |-> idx, ci |-> ci, env |-> "plain", s |-> s, cls |-> TClass(s), ideal |-> TIdeal(s), mach |-> TMach(s),
@@ -185,6 +187,8 @@ Meta == [mode |-> "meta",
          units |-> [u \in UnitSyms |-> UText(u)], custom |-> CustomUnits,
          tplain |-> [t \in TmplToks |-> TPlain(t)], fn1 |-> Fn1Table]
 
+\* template strings in which a brace is followed by a reference are printed whatever their length
+OpensRef == \E i \in 1..(Len(s) - 1) : s[i] = "{" /\ s[i + 1] \in TRefs
 \* which strings are printed: every string up to EmitMax tokens when all strings are enumerated; in
 \* the pruned (deep) enumeration only complete expressions of the grammar that are well typed
 Printed(complete) == Emit /\ s # <<>> /\ (Source = "file" \/ (IF Prune THEN complete ELSE Len(s) <= EmitMax))
@@ -197,6 +201,6 @@ Refines ==
          [] Mode = "log" -> LET i == LogInfo IN
                             /\ Printed(i.ok /\ i.cls # "illtyped") => PrintT(ToJson(LogRecord(i)))
                             /\ LogRefines(i)
-         [] Mode = "tmpl" -> /\ Printed(TRUE) => PrintT(ToJson(TmplRecord))
+         [] Mode = "tmpl" -> /\ (Printed(TRUE) \/ (Emit /\ OpensRef)) => PrintT(ToJson(TmplRecord))
                              /\ TmplRefines
 =============================================================================
